@@ -168,6 +168,9 @@ func (P *Program) FindFunc(key string) []*ssa.Function {
 	if f, ok := all[modulePath+"."+key]; ok && len(out) == 0 {
 		out = append(out, f)
 	}
+	if len(out) == 1 && out[0].TypeParams().Len() > 0 && len(out[0].TypeArgs()) == 0 {
+		out = nil // a generic function is verified through its instances, never uninstantiated
+	}
 	if len(out) == 0 {
 		var keys []string
 		for k := range all {
